@@ -24,7 +24,14 @@ type Decoder struct {
 
 	// see Decoder.ExpectTypesInInterface description
 	expectedTypes []reflect.Type
+
+	// how deep the value being decoded is nested in the message: the peer chooses it, the stack is finite
+	depth int
 }
+
+// maxNesting is far beyond anything a schema produces (objects in vectors in objects...: tens of levels) and far
+// below what the goroutine stack holds.
+const maxNesting = 1000
 
 // NewDecoder returns a new decoder that reads from r.
 // Unfortunately, decoder can't work with part of data, so reader must be read all before decoding.
